@@ -1,2 +1,134 @@
-// Package c08: (not built yet)
 package c08
+
+import (
+	"bytes"
+	"crypto/sha1"
+	"encoding/hex"
+	"encoding/json"
+	"fmt"
+	"os"
+	"os/exec"
+	"path/filepath"
+	"strconv"
+	"strings"
+	"time"
+
+	"verif/mc"
+)
+
+func repoDir() string {
+	if r := os.Getenv("VERIF_REPO"); r != "" {
+		return r
+	}
+	return "/repo"
+}
+
+func digest(s string) string {
+	h := sha1.Sum([]byte(s))
+	return hex.EncodeToString(h[:])
+}
+
+type replay struct {
+	Scenario string `json:"scenario"`
+	Site     string `json:"site"`
+	Policy   string `json:"policy"`
+	Point    int    `json:"point"` // dynamic point index (-1 = all instances of the site)
+	Site2    string `json:"site2,omitempty"`
+	Policy2  string `json:"policy2,omitempty"`
+}
+
+// prepare generates the overlay from the current working tree and builds the worker binary with
+// map iteration under explorer control.
+func prepare(tier string) (map[string]string, string, error) {
+	repo := repoDir()
+	tag := digest(repo)[:8]
+	dir := filepath.Join("/verif/.cache", "order-"+tag)
+	os.RemoveAll(dir)
+	os.MkdirAll(dir, 0o755)
+	env := append(os.Environ(), "GOFLAGS=-mod=mod", "GOPROXY=off", "GOSUMDB=off", "GOTOOLCHAIN=local")
+	run := func(wd string, name string, args ...string) error {
+		cmd := exec.Command(name, args...)
+		cmd.Dir = wd
+		cmd.Env = env
+		var buf bytes.Buffer
+		cmd.Stdout, cmd.Stderr = &buf, &buf
+		if err := cmd.Run(); err != nil {
+			return fmt.Errorf("%s %v: %v\n%s", name, args, err, buf.String())
+		}
+		return nil
+	}
+	if err := run("/verif/tools/vrewrite", "go", "build", "-o", "/verif/bin/vrewrite", "."); err != nil {
+		return nil, "", err
+	}
+	if err := run("/verif", "/verif/bin/vrewrite", "-repo", repo, "-out", dir, "-shim", "/verif/shim"); err != nil {
+		return nil, "", err
+	}
+	exe := filepath.Join("/verif/bin", "vcheck-c08-order-"+tag)
+	args := []string{"build", "-overlay", filepath.Join(dir, "overlay.json"), "-tags", "order", "-o", exe}
+	if repo != "/repo" {
+		mtag := ""
+		// the same modfile the check script generated for this VERIF_REPO
+		sum := exec.Command("bash", "-c", "echo "+repo+" | md5sum | cut -c1-8")
+		if b, err := sum.Output(); err == nil {
+			mtag = strings.TrimSpace(string(b))
+		}
+		args = append(args, "-modfile=/verif/.cache/mod-"+mtag+"/go.mod")
+	}
+	args = append(args, "./cmd/c08")
+	if err := run("/verif", "go", args...); err != nil {
+		return nil, "", err
+	}
+	plain, _ := os.Executable()
+	sites, _ := os.ReadFile(filepath.Join(dir, "sites.json"))
+	var sl []any
+	json.Unmarshal(sites, &sl)
+	return map[string]string{"repo": repo, "plain_exe": plain, "static_sites": strconv.Itoa(len(sl))}, exe, nil
+}
+
+// single is used by the plain (un-rewritten) build: it prints the digest of one scenario.
+func single(c *mc.Ctx, desc string) string {
+	for _, sc := range Scenarios(c.Args["repo"]) {
+		if sc.Name == desc {
+			out, err := sc.Run()
+			if err != nil {
+				return "DIGEST error " + err.Error()
+			}
+			return "DIGEST " + digest(out)
+		}
+	}
+	return "DIGEST unknown-scenario"
+}
+
+func init() {
+	mc.Register(&mc.Check{
+		ID:    "C08",
+		Level: "model_checking",
+		Rule: "map iteration order is an environment answer owned by the explorer: a rewriter (go/packages + go build -overlay, generated from the current working tree) turns every range-over-map loop of goflow into a loop over explorer-ordered entries. Scenarios = engine sessions over a map-heavy world (several translation languages referencing different fields, many results/fields saved with equal timestamps, webhook headers with failing templates, case-variant flow names, legacy_extra) x contact language x trigger x clock step x history, plus, for every asset file of the repository's own test data, migrate/clone/read/inspect/extract/change-language/PO export of every flow and formatting of every group query. " +
+			"For every scenario: run 0 takes canonical order at every dynamic iteration point and records the points; then for every static site hit and every policy in {reverse, rotate+1, rotate-1, swap first two} one execution applies it at all dynamic instances of the site (thorough: also at each single dynamic point, and all pairs of sites); every execution must produce byte-identical output. Scenarios without detected order-dependence are cross-checked against a fresh process of the UN-rewritten build. states = executions, transitions = dynamic iteration points visited.",
+		Assumptions: []string{"only map iteration inside goflow packages is explored (dependencies are covered by the fresh-process cross-check only)", "permutation policies, not all n! orders, for n > 3"},
+		Run:         runOrder,
+		Replay:      replayOrder,
+		Single:      single,
+		Prepare:     prepare,
+		Budget:      map[string]time.Duration{"quick": 6 * time.Minute, "thorough": 25 * time.Minute},
+		Guards: func(r *mc.Result, tier string) []string {
+			var f []string
+			hit := 0
+			for k := range r.Facts {
+				if strings.HasPrefix(k, "site:") {
+					hit++
+				}
+			}
+			if hit < 15 {
+				f = append(f, fmt.Sprintf("only %d static map-iteration sites were hit with more than one key", hit))
+			}
+			if r.Counters["deviating_executions"] == 0 {
+				f = append(f, "no deviating execution was run")
+			}
+			if r.Counters["plain_crosschecks"] == 0 {
+				f = append(f, "no cross-check against the un-rewritten build")
+			}
+			return f
+		},
+	})
+}
